@@ -174,7 +174,7 @@ func c09Run(c *core.Ctx) {
 				cs := c09Case{ts.Name, td.Name, amps, chs, pos, lens}
 				fs := c09EvalCase(cs)
 				if len(fs) == 0 {
-					c.InternalError("%s: failure %s at amplitude %v (channels %d, position %d) seen in the sweep does not reproduce in isolation", name, kind, amps, p.Ch, p.Idx)
+					fs = []F{histDep(name, fmt.Sprintf("%s: failure %s at amplitude %v (channels %d, position %d) seen in the sweep does not reproduce in isolation", name, kind, amps, p.Ch, p.Idx))}
 				}
 				c.Fail(cs, fs...)
 			}
@@ -235,7 +235,7 @@ func c09Run(c *core.Ctx) {
 						}
 					}
 					if !found {
-						c.InternalError("%s: order/injectivity violation seen in the sweep (amplitudes %d, %d) does not reproduce in isolation", name, pa, a)
+						fs = append(fs, histDep(name, fmt.Sprintf("%s: order/injectivity violation seen in the sweep (amplitudes %d, %d) does not reproduce in isolation", name, pa, a)))
 					}
 					c.Fail(cs, fs...)
 				}
